@@ -35,6 +35,38 @@ func (fx *FnExec) doMakeClosure(st *State, x *ssa.MakeClosure) {
 	}
 	closures[r.String()] = &closureInfo{fn: x.Fn.(*ssa.Function), bindings: bs}
 	fx.vals[x] = r
+	fx.closureMeaning(st, x.Fn.(*ssa.Function), r, len(bs))
+}
+
+// closureMeaning: a closure without captured variables whose function has a
+// contract consisting of postconditions only (a pure predicate or function) is
+// known, as a function value, to satisfy them for every argument:
+// forall args. ensures[result := apply(r, args)]. The closure itself is
+// verified against that contract as a unit of its own.
+func (fx *FnExec) closureMeaning(st *State, fn *ssa.Function, r *Term, nbind int) {
+	con := fx.e.cons[fn]
+	if con == nil || nbind != 0 || con.Inline || len(con.Common.Requires) > 0 || len(con.Common.Assigns) > 0 || len(con.Behs) > 0 {
+		return
+	}
+	if fn.Signature.Results().Len() != 1 || len(con.Common.Ensures) == 0 {
+		return
+	}
+	var vars []*Term
+	for _, p := range fn.Params {
+		vars = append(vars, Var(p.Name()+"!c", fx.e.sortOf(p.Type())))
+	}
+	app := fx.applyFuncValue(r, fn.Signature, vars)
+	pst := &State{guard: True, cells: map[*ssa.Alloc]*Term{}, heap: map[string]*Term{}, epoch: "SPEC"}
+	env := fx.contractEnv(fn, con, vars, pst, pst, []*Term{app})
+	env.inSpecBody = true
+	for _, en := range con.Common.Ensures {
+		body := env.boolExpr(en.Expr)
+		if strings.Contains(body.String(), "HSPEC_") {
+			return // reads the heap: not a pure function of its arguments
+		}
+		fx.c.Assume(Forall(vars, body, app))
+	}
+	fx.trusted("closure " + fn.Name() + " as a function value satisfies its (separately verified) postcondition for every argument")
 }
 
 // applyFuncValue models a call through an unknown function value as an
@@ -137,6 +169,15 @@ func hasLoop(fn *ssa.Function) bool {
 }
 
 func (fx *FnExec) staticCall(st *State, fn *ssa.Function, args, bindings []*Term, p token.Pos) []*Term {
+	// byte-set membership in a constant string: computed mechanically, in preference to the general contract
+	switch fn.String() {
+	case "strings.IndexByte", "strings.ContainsRune", "strings.IndexRune":
+		if _, ok := constStringOf(args[0]); ok {
+			if r, ok := fx.knownExternal(st, fn.String(), fn, args, p); ok {
+				return r
+			}
+		}
+	}
 	// synthetic wrappers/thunks: resolve promoted methods to the underlying method
 	if con := fx.e.cons[fn]; con != nil {
 		if con.Inline {
@@ -317,6 +358,7 @@ func (fx *FnExec) applyContract(st *State, fn *ssa.Function, con *Contract, args
 	}
 	for _, b := range con.Behs {
 		if len(b.Ghosts) > 0 {
+			fx.instantiateBeh(st, fn, con, b, envPre, envPost)
 			continue
 		}
 		var rq, en []*Term
@@ -371,6 +413,49 @@ func (fx *FnExec) havocAssigns(st *State, envPre *SpecEnv, assigns []*Clause, fn
 		}
 	}
 	return locs
+}
+
+// instantiateBeh: a behaviour of the callee with ghost parameters is available to
+// the caller for the ghost arguments named by an `instantiate Callee.beh(args)`
+// clause of the unit under verification (arguments evaluated in its entry state).
+func (fx *FnExec) instantiateBeh(st *State, fn *ssa.Function, con *Contract, b *Behaviour, envPre, envPost *SpecEnv) {
+	top := fx.root()
+	if top.beh == nil {
+		return
+	}
+	want := fn.Name() + "." + b.Name
+	for _, ic := range top.beh.Insts {
+		if ic.Expr.Name != want || len(ic.Expr.Args) != len(b.Ghosts) {
+			continue
+		}
+		tenv := top.specEnvEntry()
+		pre, post := *envPre, *envPost
+		pre.vars = map[string]specVal{}
+		post.vars = map[string]specVal{}
+		for k, v := range envPre.vars {
+			pre.vars[k] = v
+		}
+		for k, v := range envPost.vars {
+			post.vars[k] = v
+		}
+		for i, g := range b.Ghosts {
+			gt, err := fx.e.resolveType(con.Pkg, g.Type)
+			if err != nil {
+				fx.fail("instantiate %s: %v", want, err)
+			}
+			v := tenv.expr(ic.Expr.Args[i])
+			pre.vars[g.Name] = specVal{v.t, gt}
+			post.vars[g.Name] = specVal{v.t, gt}
+		}
+		var rq, en []*Term
+		for _, r := range b.Requires {
+			rq = append(rq, pre.boolExpr(r.Expr))
+		}
+		for _, r := range b.Ensures {
+			en = append(en, post.boolExpr(r.Expr))
+		}
+		fx.c.Assume(Implies(st.guard, Implies(And(rq...), And(en...))))
+	}
 }
 
 // calleeFrame: what a callee's contract allows it to assign must lie within the
